@@ -7,6 +7,7 @@
 #
 # @author Davide Brunato <brunato@sissa.it>
 #
+import re
 from collections import deque
 from collections.abc import Callable, Iterable, Iterator
 from functools import cached_property
@@ -66,7 +67,9 @@ def split_path(path: str, namespaces: Optional[NsmapType] = None,
         while condition(path[end]):
             end += 1
 
-    path = path.replace(' ', '').replace('\t', '').replace('./', '')  # path normalization
+    # Path normalization: removes the spaces and the self steps, except
+    # the one of a descendant-or-self shortcut ('.//'), that is not a step.
+    path = re.sub(r'(?<!\.)\./(?!/)', '', path.replace(' ', '').replace('\t', ''))
     chunks: deque[str] = deque([''])  # add an empty element to avoid index errors
     default_namespace = None if not namespaces else namespaces.get('')
 
